@@ -32,7 +32,7 @@ var c02Subresources = []string{"", "acl", "policy", "tagging", "versioning", "ob
 var c02Paths = []string{"/", "/cbk", "/cbk/", "/cbk/k", "/cbk/k/", "/cbk/k/x", "/cbk//k", "/newb", "/newb/", "/cbk/dir/", "/cbk/newkey"}
 var c02AdminPaths = []string{"/create-user", "/delete-user?access=usr1", "/update-user?access=usr1", "/change-bucket-owner?bucket=cbk&owner=usr1", "/list-users", "/list-buckets"}
 var c02Methods = []string{"GET", "PUT", "POST", "DELETE", "HEAD"}
-var c02Defects = append(append([]string{}, prog.Defects...), "expired-presign", "modified-presign")
+var c02Defects = append(append([]string{}, prog.Defects...), "expired-presign", "modified-presign", "dup-query-first-presign")
 
 type c02Case struct {
 	method, path, sub, defect, body string
@@ -149,7 +149,7 @@ func c02Shapes(a lib.Args, res *lib.Result) error {
 		if c.admin || strings.HasPrefix(c.path, "/create-user") {
 			body = "<Account><Access>evil</Access><Secret>evilsecret</Secret><Role>admin</Role></Account>"
 		}
-		if c.defect == "altered-payload" && c.body == "chunked" {
+		if (c.defect == "altered-payload" || c.defect == "te-chunked-altered-payload") && c.body == "chunked" {
 			// only a payload whose hash is declared in a signed header is covered by the
 			// signature of a request whose handler ignores the body
 			c.body = "small"
@@ -184,6 +184,8 @@ func c02Shapes(a lib.Args, res *lib.Result) error {
 			req.Auth, req.Expires, req.TimeOffset = "presign", 60, -600
 		case "modified-presign":
 			req.Auth, req.Expires, req.Defect = "presign", 300, "bad-signature"
+		case "dup-query-first-presign":
+			req.Auth, req.Expires, req.Defect = "presign", 300, "dup-query-first"
 		default:
 			req.Defect = c.defect
 		}
